@@ -48,7 +48,7 @@ def patch_cfi(asm):
         from gtirb_rewriting.assembler import Assembler
 
         _, m = create_test_module(gtirb.Module.FileFormat.ELF, gtirb.Module.ISA.X64)
-        a = Assembler(m, implicit_cfi_procedure=True)
+        a = Assembler(m, implicit_cfi_procedure=True, allow_undef_symbols=True)
         a.assemble(asm)
         r = a.finalize()
         out = []
@@ -257,15 +257,50 @@ def flush(ctx, pending):
             continue
         for issue in a["C08"]:
             ctx.count("issue:" + issue["kind"])
+            for e in case.get("edits", []):
+                if e.get("_tail"):
+                    ctx.count("issue-with:" + e["_tail"])
             sig = "C08:" + (SIG_END_OF_PROC if end_of_procedure(case, o, issue) else issue["kind"])
             ctx.violation(sig, issue["msg"], case)
     pending.clear()
 
 
+TAIL_PATCHES = [
+    # the closing directive stands behind the patch's last instruction, a jump: it describes the code that follows
+    ("tail", "pushq %%rax\n.cfi_adjust_cfa_offset 8\njmp %s\n.cfi_adjust_cfa_offset -8"),
+    # ... the same with a label behind it
+    ("tail-label", "testq %%rdi, %%rdi\nje .Lskip\npushq %%rax\n.cfi_adjust_cfa_offset 8\njmp %s\n.cfi_adjust_cfa_offset -8\n.Lskip:"),
+    # directives between two labels at the head of the patch
+    ("head-labels", ".cfi_remember_state\n.La:\n.cfi_def_cfa_offset 32\n.Lb:\nnop\n.cfi_restore_state"),
+]
+
+
+def tail_patch(case, rng):
+    """a patch with balanced CFI whose directives stand on empty blocks of the assembled patch"""
+    text = case["text"]
+    inside = [i for i, d in enumerate(text) if d["kind"] == "code" and d.get("cfi") and d["insns"]
+              and not any(e["block"] == i for e in case["edits"])]
+    labels = [y["name"] for d in text if d["kind"] == "code" for y in d["syms"] if not y["at_end"]]
+    if not inside or not labels:
+        return case
+    i = rng.choice(inside)
+    offs = emodify.block_layout(text[i])
+    kind, asm = TAIL_PATCHES[rng.randrange(len(TAIL_PATCHES))]
+    case["edits"].append({"op": "insert", "block": i, "off": rng.choice(offs[1:-1] or offs[:1]),
+                          "asm": asm % rng.choice(labels) if "%s" in asm else asm, "_tail": kind})
+    return case
+
+
 def run(ctx):
     pending = []
     for _ in range(ctx.budget(1500, 40000)):
-        check_case(ctx, decorate(emodify.gen_case(ctx.rng), ctx.rng), pending)
+        case = decorate(emodify.gen_case(ctx.rng), ctx.rng)
+        if ctx.rng.random() < 0.12:
+            case = tail_patch(case, ctx.rng)
+            for e in case["edits"]:
+                if e.get("_tail"):
+                    ctx.count("cfi-on-empty-patch-block:" + e["_tail"])
+        check_case(ctx, case, pending)
         if len(pending) >= 300:
             flush(ctx, pending)
     flush(ctx, pending)
